@@ -299,12 +299,12 @@ func runCheck(repo, root, prop, tier string, seed int) *CheckResult {
 			if o.Query == "" {
 				o.Query = o.BuildQuery()
 			}
-			r := runSMT(work, o.Name, o.Query, timeout, seed, o.solverPref())
+			r := discharge(work, o.Name, o.Query, timeout, seed)
 			if r.Status != "unsat" && r.Status != "sat" && r.Status != "error" {
 				// undecided: if the quantifier-free relaxation has a model the obligation is most likely
 				// falsifiable (the replay decides); otherwise retry once, longer, with another seed
 				if m, _ := cexModel(o, work, seed); m == nil {
-					r2 := runSMT(work, o.Name+".retry", o.Query, timeout*3, seed+17, o.solverPref())
+					r2 := discharge(work, o.Name+".retry", o.Query, timeout*3, seed+17)
 					if r2.Status == "unsat" || r2.Status == "sat" {
 						r = r2
 					}
